@@ -64,11 +64,23 @@ class Edits:
         return "".join(out), segs
 
 
+def open_src(repo, f):
+    import glob as _g
+    if f.startswith("~"):
+        f = os.path.expanduser(f)
+    if f.startswith("/"):
+        c = sorted(_g.glob(f))
+        if not c:
+            raise LostAnchor("no such file: " + f)
+        return Src(c[0])
+    return Src(os.path.join(repo, f))
+
+
 def parse_subst(s):
     out = []
     if not s:
         return out
-    for part in s.split(";"):
+    for part in s.split("@@"):
         part = part.strip()
         if not part:
             continue
@@ -238,13 +250,68 @@ def body_rewrites(src, lo, hi, edits, subst, stats, opts):
         i += 1
 
 
+
+def rewrite_loop_values(src, lo, hi, edits, stats, types=None):
+    """R9: `loop { .. break V; .. }` used as a value  =>  `{ let __brkK; loop { .. { __brkK = V; break; } .. } __brkK }`"""
+    toks = src.toks
+    loops = src.loops_in(lo, hi)
+    k = 0
+    for L in loops:
+        if L["kind"] != "loop":
+            continue
+        bo, bc = L["body_open"], L["body_close"]
+        # nested loops' bodies are skipped when looking for this loop's breaks
+        nested = [(n["body_open"], n["body_close"]) for n in loops if n["body_open"] > bo and n["body_close"] < bc]
+        brks = []
+        i = bo + 1
+        while i < bc:
+            skip = [n for n in nested if n[0] == i]
+            if skip:
+                i = skip[0][1] + 1
+                continue
+            t = toks[i]
+            if t.kind == "ident" and t.text == "break" and toks[i + 1].text not in (";", "}", ",") and toks[i + 1].kind != "lifetime":
+                # value: up to `;` / `,` at depth 0 or an unmatched closer
+                j = i + 1
+                d = 0
+                while j < bc:
+                    x = toks[j]
+                    if x.text in "([{":
+                        d += 1
+                    elif x.text in ")]}":
+                        if d == 0:
+                            break
+                        d -= 1
+                    elif x.text in (";", ",") and d == 0:
+                        break
+                    j += 1
+                brks.append((i, j))
+                i = j
+                continue
+            i += 1
+        if not brks:
+            continue
+        name = f"__brk{k}"
+        k += 1
+        kw = toks[L["kw"]]
+        ty = (types or {}).get(name)
+        edits.add(kw.start, kw.start, "{ let " + name + (": " + ty if ty else "") + "; ", "R9", "loop value: deferred-initialised local")
+        for (a, b) in brks:
+            val_lo, val_hi = toks[a + 1].start, toks[b - 1].end
+            edits.add(toks[a].start, val_lo, "{ " + name + " = ", "R9", "break <value>")
+            semi = toks[b].text == ";"
+            edits.add(val_hi, toks[b].end if semi else val_hi, "; break; }", "R9", "")
+        edits.add(toks[bc].end, toks[bc].end, " " + name + " }", "R9", "")
+        stats["R9"] = stats.get("R9", 0) + 1
+
+
 def parse_block(body):
     """split directive body into main spec and sub-directives"""
     main, subs = [], []
     cur = None
     for line in body.split("\n"):
         s = line.strip()
-        if s.startswith("@loop") or s.startswith("@before") or s.startswith("@after") or s.startswith("@closure") \
+        if s.startswith("@entry") or s.startswith("@loop") or s.startswith("@before") or s.startswith("@after") or s.startswith("@closure") \
                 or s.startswith("@rewrite"):
             parts = shlex.split(s)
             cur = dict(kind=parts[0][1:], args=parts[1:], text=[])
@@ -301,7 +368,7 @@ def name_return(src, f, edits, retname):
 
 
 def gen_fn(repo, d, body, report):
-    src = Src(os.path.join(repo, d["file"]))
+    src = open_src(repo, d["file"])
     scope = None
     if "impl" in d:
         impls = src.find_impl(d["impl"])
@@ -344,8 +411,33 @@ def gen_fn(repo, d, body, report):
         edits.add(bo.start, bo.start, "\n" + spec.rstrip() + "\n", "SPEC", "contract")
     if d.get("__canary") and d.get("canary", "1") != "0":
         edits.add(bo.end, bo.end, " proof { assert(false); } ", "SPEC", "canary")
+    for sub in subs:
+        if sub["kind"] == "entry":
+            edits.add(bo.end, bo.end, "\n" + "\n".join(sub["text"]).rstrip() + "\n", "GHOST", "entry ghost")
+    # R12: `mut` parameters -> shadowing `let mut p = p;` (Verus does not accept mutation of a by-value parameter)
+    po = f["fn"] + 2
+    while toks[po].text != "(":
+        if toks[po].text == "<":
+            dd = 0
+            while True:
+                if toks[po].text == "<":
+                    dd += 1
+                elif toks[po].text == ">" and toks[po - 1].text != "-":
+                    dd -= 1
+                    if dd == 0:
+                        break
+                po += 1
+        po += 1
+    pc = match_close(toks, po)
+    for (a, b) in split_args(src, po + 1, pc):
+        if toks[a].text == "mut" and toks[a + 1].kind == "ident" and toks[a + 2].text == ":":
+            nm = toks[a + 1].text
+            edits.add(toks[a].start, toks[a + 1].start, "", "R12", f"mut parameter {nm} -> shadowing let")
+            edits.add(bo.end, bo.end, f" let mut {nm} = {nm}; ", "R12", "")
+            stats["R12"] = stats.get("R12", 0) + 1
     # body
     body_rewrites(src, f["body_open"] + 1, f["body_close"], edits, subst, stats, opts)
+    rewrite_loop_values(src, f["body_open"] + 1, f["body_close"], edits, stats, {k: v for k, v in d.items() if k.startswith("__brk")})
     loops = src.loops_in(f["body_open"] + 1, f["body_close"])
     n_loop_specs = 0
     for sub in subs:
@@ -387,7 +479,7 @@ def gen_fn(repo, d, body, report):
     text, segs = edits.apply(src.text, lo_off, hi_off)
     report["items"].append(dict(kind="fn", file=d["file"], name=d["name"], impl=d.get("impl"), gen_name=d.get("as", d["name"]),
                                 src_line=src.line_of(lo_off), src_end_line=src.line_of(hi_off), loops=len(loops),
-                                loop_specs=n_loop_specs, rules=stats, props=d.get("props", ""),
+                                loop_specs=n_loop_specs, rules=stats, props=d.get("props", ""), canary=d.get("canary", "1") != "0",
                                 edits=[dict(rule=e[3], note=e[4], src_line=src.line_of(e[0]), src=src.text[e[0]:e[1]][:200])
                                        for e in edits.items if e[3] not in ("SPEC", "GHOST", "R11")]))
     return text, segs, src
@@ -440,7 +532,7 @@ def find_closures(src, lo, hi):
 
 
 def gen_type(repo, d, body, report):
-    src = Src(os.path.join(repo, d["file"]))
+    src = open_src(repo, d["file"])
     scope = src.find_mod(d["mod"]) if "mod" in d else None
     ty = src.find_type(d["name"], scope)
     toks = src.toks
@@ -508,7 +600,7 @@ def gen_type(repo, d, body, report):
 
 
 def gen_const(repo, d, body, report):
-    src = Src(os.path.join(repo, d["file"]))
+    src = open_src(repo, d["file"])
     scope = None
     if "impl" in d:
         for sc in src.find_impl(d["impl"]):
@@ -537,7 +629,7 @@ def gen_const(repo, d, body, report):
 
 def gen_fragment(repo, d, body, report):
     """R6: contiguous statement range of a long fn becomes the body of a synthesised fn"""
-    src = Src(os.path.join(repo, d["file"]))
+    src = open_src(repo, d["file"])
     if "impl" in d:
         f = None
         for sc in src.find_impl(d["impl"]):
@@ -664,7 +756,10 @@ def generate(template_path, repo, out_path, canary=False):
 def map_offset(report, repo, off):
     for (a, b, f, so) in report["linemap"]:
         if a <= off < b:
-            text = open(os.path.join(repo, f)).read()
+            import glob as _g
+            fp = os.path.expanduser(f)
+            fp = sorted(_g.glob(fp))[0] if fp.startswith("/") else os.path.join(repo, f)
+            text = open(fp).read()
             s = so + (off - a)
             return f, text.count("\n", 0, s) + 1
     return None, None
